@@ -711,9 +711,10 @@ Ltac relm :=
 Lemma RelM_process_logon : forall f, RelM (process_logon f).
 Proof. intros f. unfold process_logon. relm. Qed.
 
-Lemma RelM_pm_head : forall f, mtype_eqb (f_type f) TSeqReset = false -> RelM (pm_head f).
+Lemma RelM_pm_head : forall f, mtype_eqb (f_type f) TSeqReset = false -> mtype_eqb (f_type f) TLogout = false ->
+  RelM (pm_head f).
 Proof.
-  intros f Hf. unfold pm_head, process_logout. destruct (f_type f) eqn:Ht; try discriminate;
+  intros f Hf Hl. unfold pm_head, process_logout. destruct (f_type f) eqn:Ht; try discriminate;
     relm; try apply RelM_process_logon; relm.
 Qed.
 
@@ -828,6 +829,72 @@ Qed.
 Lemma Inv_Out : forall w, Inv w -> Out_ok w. Proof. intros w H; apply H. Qed.
 Lemma Inv_nin : forall w, Inv w -> 0 < nin w. Proof. intros w (_ & (_ & _ & H) & _); exact H. Qed.
 
+(* a world that differs from w only by effects without transport writes and with the same outbound counter *)
+Lemma Step_quiet : forall w w' l, Inv w' -> nout w' = nout w -> log w' = log w ++ l -> writes l = [] ->
+  base w' = base w -> past w' = past w -> ctor w' = ctor w -> Step w w'.
+Proof.
+  intros w w' l HI Hn Hl Hw Hb Hp Hc. constructor; auto; try lia.
+  exists l. split; auto. rewrite Hw. intros f Hf. contradiction.
+Qed.
+
+(* computations that make Steps (may journal an inbound frame) *)
+Definition StepM {A} (m : M A) : Prop := forall w r w', Inv w -> m w = (r, w') -> Step w w'.
+
+Lemma StepM_of_RelM : forall A (m : M A), RelM m -> StepM m.
+Proof. intros A m Hm w r w' HI H. apply Rel_Step; auto. eapply Hm; eauto using Inv_Out, Inv_nin. Qed.
+
+Lemma StepM_bind : forall A B (m : M A) (k : A -> M B), StepM m -> (forall a, StepM (k a)) -> StepM (bind m k).
+Proof.
+  intros A B m k Hm Hk w r w' HI H. unfold bind in H.
+  destruct (m w) as [[a|e] w1] eqn:E.
+  - pose proof (Hm _ _ _ HI E) as S1. eapply Step_trans; [exact S1|]. eapply Hk; [apply S1|exact H].
+  - inversion H; subst. eapply Hm; eauto.
+Qed.
+
+(* the peer's in-sequence Logout is counted and journaled *)
+Lemma count_logout_spec : forall f w r w', Inv w -> count_logout f w = (r, w') ->
+  Step w w' /\ st w' = st w /\ rl w' = rl w
+  /\ (f_seq f = nin w -> r = inl tt /\ nin w' = nin w + 1 /\ sin (jt w') = nin w)
+  /\ (f_seq f <> nin w -> w' = w).
+Proof.
+  intros f w r w' HI H. pose proof HI as (Ho & (Hs & Hr & Hp) & Ha).
+  unfold count_logout in H. munfold_in H.
+  destruct (f_seq f =? nin w) eqn:Heq.
+  2:{ inversion H; subst. split; [apply Step_refl; auto|]. split; [reflexivity|]. split; [reflexivity|].
+      split; [intros E; lia|intros _; reflexivity]. }
+  assert (Hfn : f_seq f = nin w) by lia.
+  cbn [st maxres nin nout rl dlv ctor base log past] in H. rewrite Hfn in H.
+  set (W := mkW (nin w + 1) (nout w) (st w) (rl w) (maxres w) (dlv w) (ctor w) (base w) (log w) (past w)) in *.
+  assert (HoW : Out_ok W) by (eapply Out_ok_ext; [| | |exact Ho]; reflexivity).
+  assert (HaW : AwOk W) by exact Ha.
+  destruct (persist_in_inv W (nin w) r w' HoW Hr Hp eq_refl HaW H) as (I' & R' & N' & L' & B' & P' & C' & Ni' & S').
+  split.
+  { eapply (Step_quiet w w' (map EStmt (persist_in_prims (nin w)))); auto; try apply writes_stmts. }
+  split; [exact S'|]. split.
+  { destruct (persist_in_ok (nin w) W) as [E _]; [apply has_in_false; exact Hr|].
+    rewrite E in H. inversion H; subst. reflexivity. }
+  split; [|intros E; contradiction].
+  intros _. split; [exact R'|]. split; [exact Ni'|].
+  destruct I' as (_ & (Hs' & _) & _). lia.
+Qed.
+
+Lemma StepM_count_logout : forall f, StepM (count_logout f).
+Proof. intros f w r w' HI H. apply (count_logout_spec f w r w' HI H). Qed.
+
+Lemma StepM_pm_head : forall f, mtype_eqb (f_type f) TSeqReset = false -> StepM (pm_head f).
+Proof.
+  intros f Hs. destruct (mtype_eqb (f_type f) TLogout) eqn:Hl.
+  2:{ apply StepM_of_RelM. apply RelM_pm_head; auto. }
+  assert (Ht : f_type f = TLogout) by (destruct (f_type f); try discriminate; reflexivity).
+  unfold pm_head, process_logout. rewrite Ht. cbn [mtype_eqb].
+  apply StepM_bind; [apply StepM_of_RelM; relm|intros w0].
+  apply StepM_bind; [apply StepM_of_RelM; relm|intros _].
+  apply StepM_bind; [apply StepM_of_RelM; relm|intros ok].
+  destruct (negb ok); [apply StepM_of_RelM; relm|].
+  apply StepM_bind; [|intros _; apply StepM_of_RelM; relm].
+  apply StepM_bind; [apply StepM_count_logout|intros _; apply StepM_of_RelM; relm].
+Qed.
+
 Lemma pm_plain_step : forall f w r w',
   mtype_eqb (f_type f) TSeqReset = false -> Inv w ->
   process_message f w = (r, w') -> Step w w'.
@@ -838,13 +905,13 @@ Proof.
   { apply Rel_Step; auto. eapply disconnect_rel; eauto using Inv_Out. }
   unfold catch at 1 in H.
   destruct (pm_head f w) as [h w1] eqn:Eh.
-  assert (R1 : Rel w w1) by (eapply RelM_pm_head; eauto using Inv_Out, Inv_nin).
-  destruct h as [[v|]|e]; try (inversion H; subst; apply Rel_Step; auto; fail).
+  assert (S1 : Step w w1) by (eapply StepM_pm_head; eauto).
+  destruct h as [[v|]|e]; try (inversion H; subst; exact S1; fail).
   unfold catch in H.
   destruct (pm_dispatch f v w1) as [d w2] eqn:Ed.
   assert (R2 : Rel w1 w2).
-  { eapply RelM_pm_dispatch; eauto; [apply R1|rewrite (r_nin _ _ R1); eauto using Inv_nin]. }
-  assert (S2 : Step w w2) by (apply Rel_Step; auto; eapply Rel_trans; eauto).
+  { eapply RelM_pm_dispatch; eauto; [apply Inv_Out; apply S1|apply Inv_nin; apply S1]. }
+  assert (S2 : Step w w2) by (eapply Step_trans; [exact S1|apply Rel_Step; auto; apply S1]).
   destruct v.
   - destruct (finalize_step f w2 r w' Hs (s_inv _ _ S2) H) as [S3 _].
     eapply Step_trans; eauto.
@@ -893,13 +960,6 @@ Qed.
 Definition seqreset_lag (f : frame) : bool :=
   (0 <? f_seq f) && (f_seq f <=? f_a f) && (1 <? f_a f) && negb (f_seq f + 1 =? f_a f).
 
-(* a world that differs from w only by effects without transport writes and with the same outbound counter *)
-Lemma Step_quiet : forall w w' l, Inv w' -> nout w' = nout w -> log w' = log w ++ l -> writes l = [] ->
-  base w' = base w -> past w' = past w -> ctor w' = ctor w -> Step w w'.
-Proof.
-  intros w w' l HI Hn Hl Hw Hb Hp Hc. constructor; auto; try lia.
-  exists l. split; auto. rewrite Hw. intros f Hf. contradiction.
-Qed.
 
 Lemma process_seqreset_cases : forall f w, Inv w ->
   let s := f_seq f in let n := f_a f in
@@ -1425,19 +1485,17 @@ Proof.
   intros [_ H]. vm_compute in H. discriminate.
 Qed.
 
-(* D22: the peer's Logout is in sequence, outside every class, and not counted *)
+(* the former D22 witness: the peer's Logout is in sequence and is counted; after the restart the peer's Logon
+   numbered 3 is accepted, no ResendRequest *)
 Definition h_d22 : list op := acc_logon ++ [OIn (mkF TLogout 2 false 0 0)].
 
-Lemma peer_logout_uncounted_refuted :
-  exists r h, class_free h = true /\ inbound_seqs h = [1; 2] /\
-    let w := run (fresh r) h in
-    Stored_eq w /\ nin w = 2 /\ nin (restart w) = 2
-    /\ let w2 := run (restart w) (logon_ops r 3) in
-       has_resend (writes (log w2)) = true /\ st w2 = Awaiting.
-Proof.
-  exists Acceptor, h_d22. split; [vm_compute; reflexivity|]. split; [reflexivity|].
-  cbv zeta. split; [split; vm_compute; reflexivity|]. vm_compute. repeat split; reflexivity.
-Qed.
+Lemma peer_logout_counted_example :
+  class_free h_d22 = true /\ inbound_seqs h_d22 = [1; 2] /\
+  let w := run (fresh Acceptor) h_d22 in
+  Stored_eq w /\ nin w = 3 /\ sin (jt w) = 2 /\ rin (jt w) = [1; 2] /\ st w = Disc /\ nin (restart w) = 3
+  /\ let w2 := run (restart w) (logon_ops Acceptor 3) in
+     has_resend (writes (log w2)) = false /\ st w2 = Active.
+Proof. vm_compute. repeat split; reflexivity. Qed.
 
 (* D14: death after the transport write of a send, before its journal write *)
 Definition h_d14 : list op := acc_logon.
@@ -1531,14 +1589,13 @@ Qed.
 
 (* on an established connection (any state past NETWORK_CONN_ESTABLISHED) every in-sequence application message,
    Heartbeat and TestRequest is counted and journaled - the counterpart of D22, where a Logout is not *)
-Lemma accepted_counted : forall f w, Inv w -> plain_type (f_type f) = true -> f_seq f = nin w ->
+Lemma accepted_counted_plain : forall f w, Inv w -> plain_type (f_type f) = true -> f_seq f = nin w ->
   is_disc (st w) = false -> cstate_eqb (st w) NCE = false ->
   let w' := run_op w (OIn f) in
   nin w' = nin w + 1 /\ sin (jt w') = nin w /\ Inv w'.
 Proof.
   intros f w HI Hp Hseq Hd Hn. cbv zeta. unfold run_op. cbn [step].
   assert (Hs : mtype_eqb (f_type f) TSeqReset = false) by (destruct (f_type f); try discriminate; reflexivity).
-  assert (Hr : mtype_eqb (f_type f) TResend = false) by (destruct (f_type f); try discriminate; reflexivity).
   destruct (process_message f w) as [r w'] eqn:E. cbn [snd].
   unfold process_message in E. cbv beta iota delta [bind get] in E.
   assert (Htl : too_low f w = false) by (unfold too_low; rewrite Hseq, Z.ltb_irrefl; reflexivity).
@@ -1549,4 +1606,47 @@ Proof.
   assert (Hseq2 : f_seq f = nin w2) by (rewrite (r_nin _ _ R2); exact Hseq).
   destruct (finalize_counts f w2 r w' Hs I2 Hseq2 E) as (_ & N3 & S3 & I3).
   rewrite N3, S3, (r_nin _ _ R2). auto.
+Qed.
+
+(* the peer's in-sequence Logout: counted, journaled, then the session is torn down *)
+Lemma logout_counted : forall f w, Inv w -> f_type f = TLogout -> f_seq f = nin w ->
+  is_disc (st w) = false -> cstate_eqb (st w) NCE = false ->
+  let w' := run_op w (OIn f) in
+  nin w' = nin w + 1 /\ sin (jt w') = nin w /\ Inv w' /\ is_disc (st w') = true.
+Proof.
+  intros f w HI Ht Hseq Hd Hn. cbv zeta. unfold run_op. cbn [step].
+  destruct (process_message f w) as [r w'] eqn:E. cbn [snd].
+  unfold process_message in E. cbv beta iota delta [bind get] in E.
+  assert (Htl : too_low f w = false) by (unfold too_low; rewrite Hseq, Z.ltb_irrefl; reflexivity).
+  rewrite Htl in E. unfold catch at 1 in E.
+  (* pm_head: count, then disconnect, then `return` *)
+  destruct (count_logout f w) as [rc wc] eqn:Ec.
+  destruct (count_logout_spec f w rc wc HI Ec) as (Sc & Stc & _ & Hcnt & _).
+  destruct (Hcnt Hseq) as (Rc & Nc & Sic). subst rc.
+  destruct (disconnect false wc) as [rd wd] eqn:Edc.
+  assert (Ic : Inv wc) by apply Sc.
+  pose proof (disconnect_rel _ _ _ _ (Inv_Out _ Ic) Edc) as Rd.
+  destruct (disconnect_disc _ _ _ _ (Inv_Out _ Ic) Edc) as [Erd Hdd]. subst rd.
+  assert (Hhead : pm_head f w = (inl None, wd)).
+  { unfold pm_head, process_logout. rewrite Ht. cbn [mtype_eqb].
+    cbv beta iota delta [bind get ret raise assert_ set_st set_rl upd]. rewrite Hd, Hn. cbn [negb].
+    rewrite Ec, Edc. rewrite Hdd. reflexivity. }
+  rewrite Hhead in E. unfold ret in E. inversion E; subst r w'. clear E.
+  assert (Id : Inv wd) by (apply (Rel_Step _ _ Ic Rd)).
+  rewrite (r_nin _ _ Rd), (r_sin _ _ Rd), Nc, Sic. auto.
+Qed.
+
+Definition counted_type (t : mtype) : bool :=
+  match t with TApp | THb | TTest | TLogout => true | _ => false end.
+
+Lemma accepted_counted : forall f w, Inv w -> counted_type (f_type f) = true -> f_seq f = nin w ->
+  is_disc (st w) = false -> cstate_eqb (st w) NCE = false ->
+  let w' := run_op w (OIn f) in
+  nin w' = nin w + 1 /\ sin (jt w') = nin w /\ Inv w'.
+Proof.
+  intros f w HI Hc Hseq Hd Hn.
+  destruct (mtype_eqb (f_type f) TLogout) eqn:Hl.
+  - assert (Ht : f_type f = TLogout) by (destruct (f_type f); try discriminate; reflexivity).
+    destruct (logout_counted f w HI Ht Hseq Hd Hn) as (A & B & C & _). cbv zeta. auto.
+  - apply accepted_counted_plain; auto. destruct (f_type f); try discriminate; reflexivity.
 Qed.
